@@ -241,6 +241,41 @@ Theorem wait_for_index_two_sections_refuted :
 Proof. exists lost_wakeup_trace, 1. exact (proj1 two_sections_lose_wakeup). Qed.
 Print Assumptions wait_for_index_two_sections_refuted.
 
+(* (f) lazy allocation of the tsm1 cache store (Cache.init): for EVERY schedule of any number
+   of threads over the init / fetch / write / acknowledge sections, every acknowledged value
+   is in the store a reader sees; and a step never takes a visible value away (the store,
+   once installed, is not replaced) *)
+Theorem cache_init_no_lost_write :
+  forall (ths : list (list cact)) (sched : list nat),
+    let s := run cexec sched ths cinit in
+    (forall v, In v (c_acked s) -> In v (cvisible s)) /\
+    cache_acked_visible s = true /\
+    (forall a v, In v (cvisible s) -> In v (cvisible (cexec a s))).
+Proof.
+  intros ths sched s. unfold s. rewrite run_is_trace.
+  pose proof (cache_init_trace_inv (trace sched ths)) as I. repeat split.
+  - apply (ci_acked _ I).
+  - apply cinv_acked_visible, I.
+  - intros a v. apply cexec_visible_mono, I.
+Qed.
+Print Assumptions cache_init_no_lost_write.
+
+(* The theorem is about an init whose locked section installs the ring BEFORE it sets
+   initializedCount, and whose lock-free part only loads the flag.  That tsm1 Cache.init (and
+   Cache.Free, which resets both) has this shape is re-derived from
+   tsdb/engine/tsm1/cache.go on every run by the translator (tools/genconsts/c19.go). *)
+Theorem cache_init_store_before_flag : c19_cache_init_store_before_flag = true.
+Proof. reflexivity. Qed.
+Print Assumptions cache_init_store_before_flag.
+
+(* the pinned code set the flag first (CompareAndSwap) and installed the ring afterwards: a
+   second writer in between writes into the empty store, which stores nothing, and is
+   acknowledged *)
+Theorem cache_init_flag_first_refuted :
+  exists tr, cache_acked_visible (run_trace (cexec_with true) tr cinit) = false.
+Proof. exists lost_first_write_trace. exact (proj2 (proj2 flag_first_loses_write)). Qed.
+Print Assumptions cache_init_flag_first_refuted.
+
 (* ---- non-vacuity ---- *)
 (* two conflicting writers, second one pauses after validation: exactly one type survives *)
 Example field_nonvacuous :
@@ -269,3 +304,9 @@ Example shard_nonvacuous :
          [[SCacheW 1; SWalW 1; SAck 1]; [SSnapBegin; SSnapInstall; SSnapClear]; [SRBegin 9; SRCache 9; SRFiles 9]] sinit) 9
   = RDone [1] [1; 1].
 Proof. vm_compute. reflexivity. Qed.
+
+(* three writers of a brand-new cache, all past the flag before any of them fetches the store *)
+Example cache_init_nonvacuous :
+  let s := run cexec [0;1;2;0;1;2;2;2;2;1;1;1;0;0;0]%nat [cwriter 1 11; cwriter 2 22; cwriter 3 33] cinit in
+  c_acked s = [33; 22; 11] /\ cvisible s = [33; 22; 11] /\ c_gen s = 1.
+Proof. vm_compute. repeat split. Qed.
